@@ -506,11 +506,45 @@ func verifFDContent(f *os.File) string {
 	if f == nil {
 		return ""
 	}
+	if fi, err := f.Stat(); err == nil && !fi.Mode().IsRegular() {
+		return "" // a device standing in for a disk that takes no bytes (verifPlantPersistentWriteFault)
+	}
 	b, err := os.ReadFile(fmt.Sprintf("/proc/self/fd/%d", f.Fd()))
 	if err != nil {
 		b, _ = os.ReadFile(f.Name())
 	}
 	return string(b)
+}
+
+// verifPlantPersistentWriteFault: when every write of the solver's run failed (a full disk rather than a transient error),
+// the file name becomes a link to /dev/full — opening succeeds, every write fails — and the descriptor the caller holds, if
+// any, is swapped for one on it. Returns the descriptor to use.
+func verifPlantPersistentWriteFault(name string, held *os.File) *os.File {
+	n, all := 0, true
+	for _, it := range verifDoc.Vector {
+		if it.Kind == "ext-bool" && it.Tag == "write(2) fails" {
+			n++
+			all = all && it.Val == "true"
+		}
+	}
+	if n < 2 || !all {
+		return held
+	}
+	if _, err := os.Stat("/dev/full"); err != nil {
+		return held
+	}
+	os.Remove(name)
+	if os.Symlink("/dev/full", name) != nil {
+		return held
+	}
+	if held != nil {
+		held.Close()
+		if f, err := os.OpenFile(name, os.O_APPEND|os.O_WRONLY, 0); err == nil {
+			return f
+		}
+		return nil
+	}
+	return held
 }
 func verifFDIsName(f *os.File, name string) bool {
 	if f == nil {
@@ -645,4 +679,28 @@ func (p *verifAtomicPointer[T]) Swap(v *T) *T  { vmapPoint(); return p.real.Swap
 func (p *verifAtomicPointer[T]) CompareAndSwap(old, new *T) bool {
 	vmapPoint()
 	return p.real.CompareAndSwap(old, new)
+}
+
+// verifOpenFile stands in for os.OpenFile in the package under test when the driver instruments the file system for a replay
+// (jobs marked instrument_fs): the file is opened / created as asked, but when every write of the solver's run failed, the
+// descriptor handed back is one on /dev/full, on which every write fails
+func verifOpenFile(name string, flag int, perm os.FileMode) (*os.File, error) {
+	f, err := os.OpenFile(name, flag, perm)
+	if err != nil {
+		return f, err
+	}
+	n, all := 0, true
+	for _, it := range verifDoc.Vector {
+		if it.Kind == "ext-bool" && it.Tag == "write(2) fails" {
+			n++
+			all = all && it.Val == "true"
+		}
+	}
+	if n >= 2 && all {
+		if full, e2 := os.OpenFile("/dev/full", os.O_WRONLY, 0); e2 == nil {
+			f.Close()
+			return full, nil
+		}
+	}
+	return f, nil
 }
